@@ -787,4 +787,100 @@ class RequestStillTransmitting(Bounded):
         return None
 
 
-BOUNDED = [TruncatedResponses, H11Responses, RandomLarge, RequestStillTransmitting, AbortedByApplication]
+class ReentrantNextRequest(Bounded):
+    prop = "C23"
+    title = "the next request issued from inside the first response's end-of-body notification (keep-alive reuse)"
+    scope = ("persistent connection; first response 200 with a Content-Length body of 0..3 bytes or chunked; the body "
+             "consumer's connectionLost issues the second request on the same protocol; second response 204 / 304 / 200 "
+             "with Content-Length 0 / 200 with a 2-byte body / chunked, optionally after a 100 Continue; the byte stream "
+             "of both responses cut at every point (second response only sent once the second request is on the wire); "
+             "exhaustive")
+    functions = ["HTTP11ClientProtocol.request", "HTTP11ClientProtocol._finishResponse_WAITING",
+                 "HTTP11ClientProtocol._disconnectParser", "HTTPClientParser.connectionLost", "Response._bodyDataFinished"]
+
+    FIRST = {"cl0": (b"HTTP/1.1 200 OK\r\nContent-Length: 0\r\n\r\n", b""),
+             "cl3": (b"HTTP/1.1 200 OK\r\nContent-Length: 3\r\n\r\nabc", b"abc"),
+             "chunked": (b"HTTP/1.1 200 OK\r\nTransfer-Encoding: chunked\r\n\r\n2\r\nab\r\n0\r\n\r\n", b"ab")}
+    SECOND = {"204": (b"HTTP/1.1 204 No Content\r\n\r\n", 204, b""),
+              "304": (b"HTTP/1.1 304 Not Modified\r\n\r\n", 304, b""),
+              "cl0": (b"HTTP/1.1 200 OK\r\nContent-Length: 0\r\n\r\n", 200, b""),
+              "cl2": (b"HTTP/1.1 200 OK\r\nContent-Length: 2\r\n\r\nxy", 200, b"xy"),
+              "chunked": (b"HTTP/1.1 200 OK\r\nTransfer-Encoding: chunked\r\n\r\n1\r\nz\r\n0\r\n\r\n", 200, b"z"),
+              "100+204": (b"HTTP/1.1 100 Continue\r\n\r\nHTTP/1.1 204 No Content\r\n\r\n", 204, b"")}
+
+    def cases(self, tier, rng):
+        for f in self.FIRST:
+            for s2 in self.SECOND:
+                n1, n2 = len(self.FIRST[f][0]), len(self.SECOND[s2][0])
+                cuts1 = range(0, n1) if tier == "thorough" else sorted(set([0, 1, n1 // 2, n1 - 2, n1 - 1]) & set(range(0, n1)))
+                cuts2 = range(0, n2) if tier == "thorough" else sorted(set([0, 1, n2 // 2, n2 - 1]) & set(range(0, n2)))
+                for c1 in cuts1:
+                    for c2 in cuts2:
+                        yield (f, s2, c1, c2)
+
+    def check(self, case):
+        f, s2, c1, c2 = case
+        first, body1 = self.FIRST[f]
+        second, code2, body2 = self.SECOND[s2]
+        t = _Transport()
+        proto = HTTP11ClientProtocol()
+        proto.makeConnection(t)
+        t.proto = proto
+        got1, got2, cons2 = [], [], _Consumer()
+        seconds = []
+
+        class First(_Consumer):
+            def connectionLost(self_, reason):
+                _Consumer.connectionLost(self_, reason)
+                # the application reuses the connection at once
+                d2 = proto.request(Request(b"GET", b"/second", Headers({b"host": [b"h"]}), None, persistent=True))
+                seconds.append(d2)
+
+                def have2(resp):
+                    got2.append(resp)
+                    if isinstance(resp, Response):
+                        resp.deliverBody(cons2)
+                    return None
+                d2.addBoth(have2)
+
+        cons1 = First()
+        d1 = proto.request(Request(b"GET", b"/first", Headers({b"host": [b"h"]}), None, persistent=True))
+
+        def have1(resp):
+            got1.append(resp)
+            if isinstance(resp, Response):
+                resp.deliverBody(cons1)
+            return None
+        d1.addBoth(have1)
+        try:
+            for seg in (first[:c1], first[c1:]):
+                if seg:
+                    proto.dataReceived(seg)
+            if len(seconds) != 1:
+                return "first response %s cut at %d: end of body reported %d time(s) to the consumer" % (f, c1, len(seconds))
+            if sum(1 for w in t.written if b"/second" in w) != 1:
+                return "second request not written exactly once: %r" % (t.written,)
+            for seg in (second[:c2], second[c2:]):
+                if seg:
+                    proto.dataReceived(seg)
+        except Exception as e:
+            return "first %s cut %d, second %s cut %d: raised %r" % (f, c1, s2, c2, e)
+        where = "first %s cut %d, second %s cut %d" % (f, c1, s2, c2)
+        if len(got1) != 1 or not isinstance(got1[0], Response):
+            return "%s: first request completed as %r" % (where, got1)
+        if b"".join(d for k, d in cons1.events if k == "data") != body1:
+            return "%s: first body %r" % (where, cons1.events)
+        if len(got2) != 1:
+            return "%s: second request Deferred fired %d time(s) (expected exactly once)" % (where, len(got2))
+        if not isinstance(got2[0], Response) or got2[0].code != code2:
+            return "%s: second request completed as %r" % (where, got2[0])
+        if b"".join(d for k, d in cons2.events if k == "data") != body2:
+            return "%s: second body %r, sent %r" % (where, cons2.events, body2)
+        if sum(1 for k, _ in cons2.events if k == "lost") != 1:
+            return "%s: second body consumer told about the end %d time(s)" % (where, sum(1 for k, _ in cons2.events if k == "lost"))
+        if t.disconnecting:
+            return "%s: connection dropped although both exchanges were clean and persistent" % where
+        return None
+
+
+BOUNDED = [TruncatedResponses, H11Responses, RandomLarge, RequestStillTransmitting, AbortedByApplication, ReentrantNextRequest]
